@@ -52,11 +52,15 @@ def read_both(blob, password):
     return rm, pm, errs
 
 
-def session(blob, n, mk, chain, header, password, root):
-    """Run one session on top of `blob` (None = create).  Returns (new_blob, appended_model) or raises."""
+def session(blob, n, mk, chain, header, password, root, pos="start"):
+    """Run one session on top of `blob` (None = create).  Returns (new_blob, appended_model) or raises.
+    pos: where the stream handed to the append session stands (a caller reusing the stream of the previous session
+    finds it wherever close() left it: the archive is addressed from offset 0 whatever the position)."""
     import py7zr
 
     bio = io.BytesIO(blob or b"")
+    if blob and pos != "start":
+        bio.seek({"end": len(blob), "mid": 6, "afterhdr": 32}[pos])
     filters = chains.py_filters(chain)
     appended = []
     old = os.getcwd()
@@ -125,12 +129,13 @@ def run_history(init, sessions, wd):
             return viol, {"judged": 0}
         return [], {"judged": 0, "skipped": "initial state not readable by both readers: " + errs[0][0]}
     judged = 0
-    for n, (mk, chain, header) in enumerate(sessions, start=1):
-        label = f"{init} then " + " ".join(f"a({m},{c},{h})" for m, c, h in sessions[:n])
+    for n, (mk, chain, header, *rest) in enumerate(sessions, start=1):
+        pos = rest[0] if rest else "start"
+        label = f"{init} then " + " ".join("a(" + ",".join(x) + ")" for x in sessions[:n])
         if pw is None and chains.needs_password(chain):
             return viol, {"judged": judged, "skipped": "password not constant"}
         try:
-            nblob, appended = session(blob, n, mk, chain if not pw or chains.needs_password(chain) else chain, header, pw, root)
+            nblob, appended = session(blob, n, mk, chain if not pw or chains.needs_password(chain) else chain, header, pw, root, pos)
         except SoftTimeout:
             raise
         except Exception as ex:
@@ -242,6 +247,14 @@ def main(tier="quick", seed=0, only=None):
                     items.append((init, [a, b]))
                     if depth_py >= 3 and init[1] in ("str1", "tree", "none") and a[0] in ("str1", "zero", "dir", "tree") and init[3] == "raw":
                         items += [(init, [a, b, c]) for c in red if c[1].startswith("COPY")]
+    # the append session is handed a stream that does not stand at offset 0 (the stream of the previous session, reused)
+    for init in inits:
+        if init[1] in ("str1", "tree") and init[2] in ("COPY", "LZMA2", "LZMA2+AES"):
+            aes = chains.needs_password(init[2]) or init[3] == "encrypted"
+            for pos in ("end", "mid", "afterhdr"):
+                for a in (("str2", "COPY+AES" if aes else "COPY", "raw", pos), ("dir", "LZMA2+AES" if aes else "LZMA2", "encoded", pos)):
+                    items.append((init, [a]))
+                    items.append((init, [a, ("str1", a[1], a[2], "end")]))
     for init in ref_inits + fix_inits:
         items += [(init, [a]) for a in alphabet if a[1] == "COPY" and a[2] in ("raw", "encoded")]
         items += [(init, [("str1", "LZMA2", "encoded"), ("str2", "COPY", "raw")])]
@@ -275,7 +288,8 @@ def main(tier="quick", seed=0, only=None):
             f"a tree with dirs/empty file/empty dir/symlink, write of files, of a directory, of a symlink) x {first_chains} x header modes, "
             f"extended by EVERY append session over member kinds x {app_chains} x raw/encoded (depth 1), by every pair over the reduced "
             f"alphabet (depth 2) and selected triples (thorough); plus every reference-written layout of C10 and every third-party fixture "
-            "as initial state, extended by each member kind. After every session both readers must see the previous member map unchanged "
+            "as initial state, extended by each member kind; append sessions handed a stream standing at its end, at offset 6 or at offset 32 "
+            "instead of 0. After every session both readers must see the previous member map unchanged "
             "(name, kind, bytes, mtime, attributes) followed by exactly the appended members. State = logical member map digest."
         ),
         assumptions=["password constant along a history", "ctime/atime are not compared (property observes mtime and attributes)"],
